@@ -508,6 +508,7 @@ fn child_each(item: &serde_json::Value) -> Vec<String> {
         Err(p) => return vec![format!("adderr hook panic {p}")],
     };
     let mut out = Vec::new();
+    out.push(format!("K check {env_wire}"));
     for (ei, entry) in set.entries.iter().enumerate() {
         out.push(format!("Q {ei} {}", request(&env_wire, entry, &set.runs)));
         for (ri, run) in set.runs.iter().enumerate() {
@@ -667,14 +668,17 @@ fn main() {
         .collect();
     let results = run_batches(CHILD_FLAG, &batches, Duration::from_secs(240), threads);
     let mut requests: Vec<String> = Vec::new();
-    let mut req_of: Vec<(usize, usize)> = Vec::new(); // (set, entry) of each request
+    let mut req_of: Vec<(usize, usize)> = Vec::new(); // (set, entry) of each request; entry = usize::MAX: the `check` request
     let mut obs: Vec<Obs> = Vec::new();
     let mut suspects: Vec<(usize, String)> = Vec::new();
     for (bi, br) in results.iter().enumerate() {
         for (ii, lines) in &br.results {
             let si = bi * per_batch + ii;
             for l in lines {
-                if let Some(rest) = l.strip_prefix("Q ") {
+                if let Some(req) = l.strip_prefix("K ") {
+                    requests.push(req.to_string());
+                    req_of.push((si, usize::MAX));
+                } else if let Some(rest) = l.strip_prefix("Q ") {
                     let (e, req) = rest.split_once(' ').unwrap_or(("0", ""));
                     requests.push(req.to_string());
                     req_of.push((si, e.parse().unwrap_or(0)));
@@ -750,8 +754,28 @@ fn main() {
         }
     };
     let mut model_of: BTreeMap<(usize, usize, usize), String> = BTreeMap::new();
+    let mut checker_refusals: Vec<String> = Vec::new();
     for (k, a) in answers.iter().enumerate() {
         let (si, ei) = req_of[k];
+        if ei == usize::MAX && !a.starts_with("bad-request") {
+            // translation validation: the verified checker on every real chunk of the set
+            let mut it = a.split(' ');
+            let verdict = it.next().unwrap_or("");
+            let n: u64 = it.next().unwrap_or("0").parse().unwrap_or(0);
+            report.count_n("checker.chunks", n);
+            if verdict == "fail" {
+                let bad: u64 = it.next().unwrap_or("0").parse().unwrap_or(0);
+                report.count_n("checker.chunks_refused", bad);
+                report.count("checker.sets_with_a_refused_chunk");
+                let ids: Vec<&str> = it.collect();
+                if checker_refusals.len() < 5 {
+                    checker_refusals.push(format!("{:?} → {}", sets[si].templates, ids.join(" ")).chars().take(500).collect::<String>());
+                }
+            } else {
+                report.count("checker.sets_fully_accepted");
+            }
+            continue;
+        }
         if a.starts_with("bad-request") {
             report.model_disagreements += 1;
             report.violation(
@@ -842,6 +866,9 @@ fn main() {
                 replay_json(set, o.entry, &small, &real_s, &model_s, "vm-model"),
             );
         }
+    }
+    for r in checker_refusals {
+        report.notes.push(format!("checker (Model/VmCheck.lean) refused a real chunk: {r}"));
     }
     let cmp = report.model_comparisons.max(1);
     let total = (report.model_comparisons + report.histogram.get("compare.skipped_unmodelled").copied().unwrap_or(0)).max(1);
